@@ -61,10 +61,29 @@ def run(chk):
                     lits.append(m.value)
     chk.check(bool(lits) and set(lits) == {hlen}, 'C14-S1', AS, D, f'literal header lengths == calcsize({F!r}) = {hlen}', f'{lits}',
               f'header-length literals {lits} in the length-prefix code differ from the {hlen} bytes of format {F!r}', node=W)
+    from ..core import copymap
+    from ..core.lin import Lin
+    ldefs = {}
+    for n_ in walk_no_nested(dfn):
+        if isinstance(n_, ast.Assign) and len(n_.targets) == 1 and isinstance(n_.targets[0], ast.Name):
+            ldefs.setdefault(n_.targets[0].id, []).append(n_.value)
+    ldefs1 = {k: v[0] for k, v in ldefs.items() if len(v) == 1}
+
+    def bytes_len(a):
+        """Length (Lin over len(<name>) symbols) of a bytes expression built from names, prefixes block[:n] and +."""
+        if isinstance(a, ast.Name):
+            return Lin.sym(f'len({a.id})')
+        if isinstance(a, ast.Subscript) and isinstance(a.slice, ast.Slice) and a.slice.lower is None and a.slice.upper is not None and a.slice.step is None:
+            return copymap.lin_of(a.slice.upper, ldefs1)      # a prefix of a chunk that is known to be long enough on this path
+        if isinstance(a, ast.BinOp) and isinstance(a.op, ast.Add):
+            x, y = bytes_len(a.left), bytes_len(a.right)
+            return None if x is None or y is None else x + y
+        return None
     for u in unpacks:
         a = u[2].args[1]
-        okk = unparse(a) == '_partial_len' or (isinstance(a, ast.Subscript) and isinstance(a.slice, ast.Slice) and a.slice.lower is None
-                                               and isinstance(a.slice.upper, ast.Constant) and a.slice.upper.value == hlen)
+        bl = bytes_len(a)
+        # `_partial_len` alone is complete (== hlen) on the path where it is unpacked: checked by the fill logic (S2)
+        okk = unparse(a) == '_partial_len' or (bl is not None and bl == Lin.const(hlen))
         chk.check(okk, 'C14-S1', AS, D, f'unpack reads exactly the {hlen}-byte prefix: {unparse(a)}', '', f'unpack argument {unparse(a)} is not the {hlen}-byte prefix', node=u[2], nontrivial=False)
     # ---- S2
     n_sites = 0
@@ -107,7 +126,7 @@ def run(chk):
     # every advance corresponds to a read
     adv = [n for n in walk_no_nested(W) if isinstance(n, ast.Assign) and unparse(n.targets[0]) == 'block' and isinstance(n.value, ast.Subscript)
            and unparse(n.value.value) == 'block' and isinstance(n.value.slice, ast.Slice) and n.value.slice.upper is None and n.value.slice.lower is not None]
-    chk.check(len(adv) == n_sites and n_sites >= 4, 'C14-S2', AS, D, 'every advance of the chunk pairs with one prefix read', f'{n_sites} reads / {len(adv)} advances',
+    chk.check(len(adv) == n_sites and n_sites >= 2, 'C14-S2', AS, D, 'every advance of the chunk pairs with one prefix read', f'{n_sites} reads / {len(adv)} advances',
               f'{n_sites} prefix reads but {len(adv)} advances of the chunk', node=W, nontrivial=False)
     # whole-chunk stash followed by break
     stash = [n for n in walk_no_nested(W) if isinstance(n, ast.AugAssign) and unparse(n.target) == '_partial_len' and unparse(n.value) == 'block']
@@ -115,8 +134,16 @@ def run(chk):
     if okst:
         par = stash[0]._parent
         idx = par.body.index(stash[0])
-        okst = isinstance(par, ast.If) and len(par.body) > idx + 1 and isinstance(par.body[idx + 1], ast.Break) and \
-            unparse(par.test) == f'len(_partial_len) + len(block) < {hlen}'
+        okst = isinstance(par, ast.If) and len(par.body) > idx + 1 and isinstance(par.body[idx + 1], ast.Break)
+        if okst:
+            # the test must say: fewer than hlen bytes are available in total  (len(_partial_len) + len(block) < hlen), in any linear form
+            t_ = par.test
+            okst = False
+            if isinstance(t_, ast.Compare) and len(t_.ops) == 1 and isinstance(t_.ops[0], (ast.Lt, ast.Gt)):
+                l_, r_ = copymap.lin_of(t_.left, ldefs1), copymap.lin_of(t_.comparators[0], ldefs1)
+                if l_ is not None and r_ is not None:
+                    d_ = (r_ - l_) if isinstance(t_.ops[0], ast.Lt) else (l_ - r_)
+                    okst = d_ == Lin.const(hlen) - Lin.sym('len(_partial_len)') - Lin.sym('len(block)')
     chk.check(okst, 'C14-S2', AS, D, 'short chunk: stash all of it in _partial_len and leave the loop', '',
               'the short-chunk path does not stash the whole chunk and break (bytes lost or loop does not terminate)', node=W)
     # ---- S3
